@@ -139,6 +139,7 @@ pub fn cmd_sign(args: &[String]) {
                 else if mc == "bit_flipped" { for b in 0..len * 8 { if thin && b % 29 != 0 { continue; } let mut m = msg.clone(); m[b / 8] ^= 1 << (b % 8); fam.push((base, m, pk, format!("message bit {}", b))); } }
                 else if mc == "truncated" { for n in 1..=len.min(8) { fam.push((base, msg[..len - n].to_vec(), pk, format!("message truncated by {}", n))); } }
                 else if mc == "extended" { for n in 1..=3usize { let mut m = msg.clone(); m.extend(rng.bytes(n)); fam.push((base, m, pk, format!("message extended by {}", n))); } }
+                rep.case(&format!("{}|{}|{}", c, len, sd));
                 for (sig, m, p, how) in fam.iter() {
                     let sod = if verified == "pure" { so_verify(sig, m, p) } else { so_verify_ph(sig, m, p) };
                     // a flipped bit of S can land on another canonical scalar but never on a valid one; libsodium and the table must agree
